@@ -927,6 +927,24 @@ fn nth_perm(n: usize, mut idx: u64) -> Vec<usize> {
     out
 }
 
+/// Members with the same key keep their relative order: which occurrence the tag lookup takes
+/// and which one is delivered last are not what "member order" is about.
+fn keep_duplicates_in_order(p: &mut [usize], m: &[(String, Doc)]) {
+    for i in 0..m.len() {
+        if m[..i].iter().any(|(k, _)| *k == m[i].0) {
+            continue; // group already handled
+        }
+        let group: Vec<usize> = (0..m.len()).filter(|j| m[*j].0 == m[i].0).collect();
+        if group.len() < 2 {
+            continue;
+        }
+        let slots: Vec<usize> = (0..p.len()).filter(|s| group.contains(&p[*s])).collect();
+        for (slot, member) in slots.into_iter().zip(group) {
+            p[slot] = member;
+        }
+    }
+}
+
 /// apply joint order number `idx` (mixed radix over all objects, in document order)
 fn apply_order(doc: &Doc, idx: &mut u64) -> Doc {
     match doc {
@@ -935,23 +953,44 @@ fn apply_order(doc: &Doc, idx: &mut u64) -> Doc {
             let f: u64 = (1..=m.len() as u64).product();
             let mine = *idx % f.max(1);
             *idx /= f.max(1);
-            let p = nth_perm(m.len(), mine);
+            let mut p = nth_perm(m.len(), mine);
+            keep_duplicates_in_order(&mut p, m);
             Doc::Map(p.into_iter().map(|i| (m[i].0.clone(), apply_order(&m[i].1, idx))).collect())
         }
         d => d.clone(),
     }
 }
 
+fn reorder_keeping_duplicates(doc: &Doc, rng: &mut Rng) -> Doc {
+    match doc {
+        Doc::Seq(v) => Doc::Seq(v.iter().map(|x| reorder_keeping_duplicates(x, rng)).collect()),
+        Doc::Map(m) => {
+            let mut p = rng.perm(m.len());
+            keep_duplicates_in_order(&mut p, m);
+            Doc::Map(p.into_iter().map(|i| (m[i].0.clone(), reorder_keeping_duplicates(&m[i].1, rng))).collect())
+        }
+        d => d.clone(),
+    }
+}
+
 fn c15(c: &mut Checker) {
-    if !model_applies(c.scn) || c.scn.has_dup {
+    if !model_applies(c.scn) {
         return;
     }
+    // with duplicate keys or two spellings of one map key the VALUE legitimately depends on the
+    // order (the later entry wins); which members are examined and what is reported does not
+    let value_free = c.scn.has_dup || c.scn.has_collision;
+    let summarise = |r: &Run| {
+        let (val, reps) = rules::outcome_summary(r, true);
+        let val = if value_free { val.map(|_| "Ok(..)".to_string()) } else { val };
+        ((val, reps), rules::returned_summary(r), rules::handover_summary(r))
+    };
     let cfg0 = c.cfg(Script::AllC);
     let base = c.exec(&cfg0, &|_| true);
     if matches!(base.outcome, Outcome::Panic(_)) {
         return;
     }
-    let base_sum = (rules::outcome_summary(&base, true), rules::returned_summary(&base));
+    let base_sum = summarise(&base);
     let orders: Vec<Doc> = match count_orders(&c.scn.doc) {
         Some(n) if n <= 200 => {
             c.stats.bump("x_perm_scenarios_with_all_orders", 1);
@@ -964,13 +1003,7 @@ fn c15(c: &mut Checker) {
         }
         _ => {
             let mut rng = Rng::new(simcore::rng::mix(c.scn.seed, 0xC15, c.scn.run_index));
-            (0..64)
-                .map(|_| {
-                    let mut d = c.scn.doc.clone();
-                    docgen::reorder(&mut d, &mut rng);
-                    d
-                })
-                .collect()
+            (0..64).map(|_| reorder_keeping_duplicates(&c.scn.doc, &mut rng)).collect()
         }
     };
     let mut n_distinct = 0;
@@ -982,21 +1015,23 @@ fn c15(c: &mut Checker) {
             let mut cfg = c.cfg(Script::AllC);
             cfg.swap_remove = swap;
             let r = c.exec_doc(&d, &cfg, &|_| true);
-            let sum = (rules::outcome_summary(&r, true), rules::returned_summary(&r));
+            let sum = summarise(&r);
             if sum != base_sum {
                 let mut out = vec![];
                 out.push(Violation {
                     rule: "X-perm",
                     msg: format!(
-                        "outcome depends on member order: delivered as {} gives value {:?}, reports made {:?}, returned error holding {:?}; delivered as {} gives value {:?}, reports made {:?}, returned error holding {:?}",
+                        "outcome depends on member order: delivered as {} gives value {:?}, reports made {:?}, returned error holding {:?}, hand-overs {:?}; delivered as {} gives value {:?}, reports made {:?}, returned error holding {:?}, hand-overs {:?}",
                         c.scn.doc.render(),
                         base_sum.0 .0,
                         base_sum.0 .1,
                         base_sum.1,
+                        base_sum.2,
                         d.render(),
                         sum.0 .0,
                         sum.0 .1,
-                        sum.1
+                        sum.1,
+                        sum.2
                     ),
                 });
                 c.record(out, &cfg, &r);
@@ -1127,6 +1162,8 @@ pub fn profile(prop: Prop, env: &Env) -> Profile {
         }
         Prop::C15 => {
             allowed.nonfinite = true;
+            allowed.dup = true;
+            allowed.collide = true;
             p.allowed = allowed;
             p.programs = pick(&|f| f.named || f.map_target || f.json);
             p.rates_pm = vec![0, 40, 100, 250];
